@@ -104,6 +104,10 @@ def obligations(tier: str):
     add("tree_grow_f14_mutate", fixture="f14", rep="tree", decider="grow", max_depth=2, ops=["mutate"], timeout=300) if T else None
     add("tree_grow_f2blk_create", fixture="f2", grammar_fn="grammar_blk", rep="tree", decider="grow", max_depth=3, timeout=200)
     add("tree_full_f2blk_create", fixture="f2", grammar_fn="grammar_blk", rep="tree", decider="full", max_depth=3, timeout=200)
+    # a list threaded through nested productions by a dependent refinement (ctx + [name])
+    add("tree_grow_f5ctx_create", fixture="f5ctx", rep="tree", decider="grow", max_depth=3, timeout=200) if T else None
+    add("tree_grow_f15_create", fixture="f15", rep="tree", decider="grow", max_depth=3, timeout=200)
+    add("ge_f15_create", fixture="f15", rep="ge", decider="grow", max_depth=3, gene_length=6, timeout=200)
     add("tree_grow_f11_concrete_start_crossover", fixture="f11", rep="tree", decider="grow", max_depth=3, ops=["crossover"], timeout=400)
     add("tree_grow_f0_crossover", fixture="f0", rep="tree", decider="grow", max_depth=2, ops=["crossover"])
     if T:
